@@ -375,6 +375,9 @@ impl Flow {
                 ("templates", tmpl),
                 ("residue", (RESIDUE_BODIES.len() * 4) as u64),
                 ("control-random", rnd),
+                // every size of jump operand (props/jumps.rs): quick = a dense window and the bands around magic numbers,
+                // thorough = every filler size up to the limit of a jump range
+                ("jump-distances", match (ctx.flavour, ctx.tier) { (Flavour::Rel, Tier::Quick) => super::jumps::quick_values().len() as u64, (Flavour::Rel, Tier::Thorough) => 65_536, (Flavour::Miri, _) => 12, _ => 300 }),
             ]),
             Which::C12 => Families::new(vec![("directed", c12_directed().len() as u64), ("limits", limit_cases().len() as u64), ("calls-random", rnd)]),
         }
@@ -390,6 +393,7 @@ impl Flow {
                 let k = (i * stride + ctx.seed % stride.max(1)) % TEMPLATE_SPACE;
                 (name, to_text(&template(k)))
             }
+            "jump-distances" => (name, format!("jump-distances #{}", i)),
             "residue" => (name, residue_program(RESIDUE_BODIES[(i / 4) as usize], 3, i % 2 == 1, (i / 2) % 2 == 1)),
             "control-random" => (name, to_text(&random_program(&mut r, Profile::Control).0)),
             "directed" if self.which == Which::C11 => (name, c11_directed()[i as usize].1.to_string()),
@@ -521,6 +525,22 @@ impl Check for Flow {
     }
 
     fn run_case(&mut self, ctx: &Ctx, idx: u64, st: &mut Stats) {
+        {
+            let (_, name, i) = self.fams(ctx).locate(idx);
+            if name == "jump-distances" {
+                let f = match (ctx.flavour, ctx.tier) {
+                    (Flavour::Rel, Tier::Quick) => super::jumps::quick_values()[i as usize],
+                    (Flavour::Rel, Tier::Thorough) => i as usize,
+                    _ => (i as usize * 37) % 4300,
+                };
+                st.count("cases:jump-distances");
+                if i == 0 {
+                    st.set_insert("jump-distances:filler", &super::jumps::sizes_note());
+                }
+                super::jumps::run(f, name, st);
+                return;
+            }
+        }
         let (fam, text) = self.text(ctx, idx);
         let (_, _, i) = self.fams(ctx).locate(idx);
         let cfg = match ctx.flavour {
